@@ -274,6 +274,10 @@ func (e *Exec) intrinsic(fn *ssa.Function, args []value) value {
 	case "vFault":
 		// a fault point: the solver chooses whether it fires
 		return Bool{C: e.fault(argStr(args[0]))}
+	case "vClockFreeze":
+		// from now on every time.Now() returns the same (symbolic) instant
+		e.clockFrozen = true
+		return nil
 	case "vFaultsFired":
 		return mkI64(int64(e.faultSeq))
 	}
@@ -337,8 +341,23 @@ func (e *Exec) expvarGet(key string) *expvarObj {
 
 // newError fabricates an error value with a stable identity.
 type errObj struct {
-	msg   string
+	msg   value // string or SStr
 	cause value // wrapped error (iface) or nil
+}
+
+// newErrorV is newError with a (possibly symbolic) message.
+func (e *Exec) newErrorV(msg value, cause value) iface {
+	return iface{t: errType, v: &errObj{msg: msg, cause: cause}}
+}
+
+// errMsg is err.Error() for modelled errors, "<error>" otherwise.
+func errMsg(v value) value {
+	if i, ok := v.(iface); ok {
+		if o, ok := i.v.(*errObj); ok {
+			return o.msg
+		}
+	}
+	return "<error>"
 }
 
 func (o *errObj) invoke(e *Exec, method string, args []value) value {
@@ -551,23 +570,34 @@ func init() {
 	}
 	stubs["github.com/pkg/errors.New"] = stubs["errors.New"]
 	stubs["github.com/pkg/errors.Errorf"] = func(e *Exec, fn *ssa.Function, args []value) value {
-		return e.newError(fmtVal(args[0]), nil)
+		va, _ := args[1].([]value)
+		return e.newErrorV(mkStr(e.sprintf(argStr(args[0]), va)), nil)
 	}
 	stubs["fmt.Errorf"] = func(e *Exec, fn *ssa.Function, args []value) value {
 		var cause value
-		for _, a := range args[1].([]value) {
+		va, _ := args[1].([]value)
+		for _, a := range va {
 			if ia, ok := a.(iface); ok && ia.t == errType {
 				cause = ia
 			}
 		}
-		return e.newError(fmtVal(args[0]), cause)
+		return e.newErrorV(mkStr(e.sprintf(argStr(args[0]), va)), cause)
 	}
 	wrap := func(e *Exec, fn *ssa.Function, args []value) value {
 		err := args[0].(iface)
 		if err.t == nil {
 			return iface{}
 		}
-		return e.newError(fmtVal(args[1]), err)
+		// pkg/errors: "<message>: <cause>"
+		var msg []Int
+		if len(args) > 2 {
+			va, _ := args[2].([]value)
+			msg = e.sprintf(argStr(args[1]), va)
+		} else {
+			msg = strBytes(args[1])
+		}
+		msg = append(append(append([]Int{}, msg...), strBytes(": ")...), strBytes(errMsg(err))...)
+		return e.newErrorV(mkStr(msg), err)
 	}
 	stubs["github.com/pkg/errors.Wrap"] = wrap
 	stubs["github.com/pkg/errors.Wrapf"] = wrap
